@@ -20,7 +20,7 @@ func init() {
 
 func c20() []*Ob {
 	return []*Ob{
-		{Prop: "C20", ID: "C20.1", Engine: "ALIAS", Floor: 2,
+		{Prop: "C20", ID: "C20.1", Engine: "ALIAS", Floor: 1,
 			Desc: "fetched bytes are never written through: the doc parameter of docFieldsFilter.filterFields / FilterDocFields and the doc taken from the docs stream in doFetch reach no element store, copy destination, in-place append or unknown consumer",
 			Check: func(c *Ctx) {
 				for _, name := range []string{"(*storeapi.docFieldsFilter).filterFields", "(*storeapi.docFieldsFilter).FilterDocFields"} {
@@ -62,7 +62,7 @@ func c20() []*Ob {
 					}
 				}
 			}},
-		{Prop: "C20", ID: "C20.2", Engine: "POLARITY", Floor: 4,
+		{Prop: "C20", ID: "C20.2", Engine: "POLARITY", Floor: 3,
 			Desc: "allow/except polarity chain: tryParseFieldsFilter sets AllowList = !Except (one negation); makeFetchReq copies AllowList and Fields unchanged; in filterFields the branch taken under !AllowList removes the listed fields (Dig(field).Suicide) and the AllowList branch removes exactly the fields not contained in the list",
 			Check: func(c *Ctx) {
 				if fn := c.Fn("proxy/search.tryParseFieldsFilter"); fn != nil {
@@ -176,7 +176,7 @@ func c20() []*Ob {
 					}
 				}
 			}},
-		{Prop: "C20", ID: "C20.3", Engine: "DOM", Floor: 3,
+		{Prop: "C20", ID: "C20.3", Engine: "DOM", Floor: 2,
 			Desc: "pass-through: filterFields returns its input unchanged BEFORE decoding only when the field list is empty or the document is empty; after decoding only on a decode error or a non-object; every other path returns the re-encoded buffer",
 			Check: func(c *Ctx) {
 				fn := c.Fn("(*storeapi.docFieldsFilter).filterFields")
@@ -259,7 +259,7 @@ func c20() []*Ob {
 					}
 				}
 			}},
-		{Prop: "C20", ID: "C20.4", Engine: "PROV+DOM", Floor: 2,
+		{Prop: "C20", ID: "C20.4", Engine: "PROV+DOM", Floor: 1,
 			Desc: "which pipe: the proxy parses the whole query text it sends to the stores (not a cut of it) and returns at the first fields pipe; the parser rejects a second field filter",
 			Check: func(c *Ctx) {
 				if fn := c.Fn("proxy/search.tryParseFieldsFilter"); fn != nil {
@@ -308,7 +308,7 @@ func c20() []*Ob {
 					}
 				}
 			}},
-		{Prop: "C20", ID: "C20.5", Engine: "ORDER+PROV", Floor: 3,
+		{Prop: "C20", ID: "C20.5", Engine: "ORDER+PROV", Floor: 1,
 			Desc: "order and count untouched: in doFetch every iteration over the requested ids takes exactly one document from the stream, stamps Ext1/Ext2 from that id and sends exactly one block",
 			Check: func(c *Ctx) {
 				fn := c.Fn("(*storeapi.GrpcV1).doFetch")
